@@ -60,6 +60,17 @@ PremiseKinds(f) ==
   UNION {{PairKind(f.alldiags, a, b, f.reps) : a \in RangeS(js[p[1]]), b \in RangeS(js[p[2]])} :
            p \in {q \in (1..Len(js)) \X (1..Len(js)) : q[1] < q[2]}} \ {"ok"}
 
+\* Beyond 20 elements slices.SortStableFunc merges insertion-sorted blocks with symMerge, which is not transcribed.
+\* When the comparison is a strict weak order on the reports of the input, every stable sorting algorithm yields the
+\* same sequence, so the insertion sort of the spec predicts the result for any length. The comparison is a
+\* lexicographic combination of total orders except for cmpDiagnostics, which answers -1 in both directions for two
+\* empty lists: the inputs without two such reports tying on the first six keys are exactly the safe ones.
+WeakOrder(f) ==
+  \A a, b \in 1..f.n :
+     (a < b /\ Len(f.reports[a].diags) = 0 /\ Len(f.reports[b].diags) = 0) =>
+        ~(/\ f.reports[a].path = f.reports[b].path /\ f.reports[a].first = f.reports[b].first /\ f.reports[a].last = f.reports[b].last
+          /\ f.reports[a].sev = f.reports[b].sev /\ f.reports[a].rep = f.reports[b].rep /\ f.reports[a].sum = f.reports[b].sum)
+
 TFile ==
   /\ l <= Len(TraceLog) /\ Rec.ev = "File"
   /\ fid' = Rec.id /\ frec' = Rec /\ base' = <<>>
@@ -92,7 +103,7 @@ TOrder ==
         ELSE PrintT(<<"VIOL", fid, ToJson([Sig("order") EXCEPT !.what = [outputs |-> diffs, order |-> Rec.order, oid |-> Rec.oid]])>>)
      /\ IF reachable THEN TRUE
         ELSE PrintT(<<"DRIFT", fid, ToJson([what |-> "replayed order is not an interleaving of the jobs", order |-> Rec.order])>>)
-     /\ IF frec.n > 20 \/ ~reachable \/ ~Rec.bind THEN TRUE
+     /\ IF (frec.n > 20 /\ ~WeakOrder(frec)) \/ ~reachable \/ ~Rec.bind THEN TRUE
         ELSE LET s == ProcessT(frec.alldiags, ord) IN
              IF /\ [k \in 1..Len(s) |-> s[k].r.cid] = Rec.final
                 /\ [k \in 1..Len(s) |-> s[k].dup] = Rec.dup
